@@ -92,6 +92,7 @@ def t2_bind(run, max_traces=2000, asbuilt=None):
 # ------------------------------------------------------------------------------------------
 def check_C01(tier, seed, replay=None):
     run = Run("C01", tier, seed)
+    run.decoys = True          # one parse in six gets every option twice (an overridden value first)
     if tier == "quick":
         trees = F.exhaustive(1, F.LEAVES_FULL)
         nrand, maxlen = 600, 3
@@ -174,6 +175,7 @@ def check_C02(tier, seed, replay=None):
     """code blocks observe the true match context: every event (also on abandoned alternatives) is compared"""
     import findings
     run = Run("C02", tier, seed)
+    run.decoys = True          # one parse in six gets every option twice (an overridden value first)
     R = F.RUNES
     if tier == "quick":
         trees = F.exhaustive(1, F.LEAVES_UTF8 + F.PRED_LEAVES + [("state", "set", "x", 1)])
@@ -305,6 +307,7 @@ def check_C05(tier, seed, replay=None):
     """backtracking rolls back the state store (incl. Cloner values); globalStore is never rolled back"""
     import findings
     run = Run("C05", tier, seed)
+    run.decoys = True          # one parse in six gets every option twice (an overridden value first)
     if tier == "quick":
         trees = F.exhaustive(1, F.LEAVES_SMALL + F.STATE_LEAVES)
         nrand, maxlen, flagsets = 500, 3, [[], ["-optimize-parser"], ["-optimize-parser", "-optimize-basic-latin", "-nolint"]]
@@ -470,6 +473,7 @@ def check_C10(tier, seed, replay=None):
     import findings
     from rt import pairwise
     run = Run("C10", tier, seed)
+    run.decoys = True          # one parse in six gets every option twice (an overridden value first)
     n = 250 if tier == "quick" else 800
     maxlen = 3
     groups = F.random_groups(seed, n, F.RandCfg(depth=4, safe_rep=False), 1)
@@ -552,6 +556,7 @@ def check_C11(tier, seed, replay=None):
     """error contract: typed, positioned, accumulated errors; panics contained (fault enumeration over blocks)"""
     import itertools
     run = Run("C11", tier, seed)
+    run.decoys = True          # one parse in six gets every option twice (an overridden value first)
     rng = random.Random(seed)
     ngroups, maxblk, maxlen = (120, 4, 3) if tier == "quick" else (500, 6, 3)
     cfg = F.RandCfg(depth=3, maxrules=3, preds=True, state=True, errs=0.0, leaves=F.LEAVES_FULL + [("lit", (F.NL,), False)])
@@ -602,6 +607,7 @@ def check_C11(tier, seed, replay=None):
 def check_C12(tier, seed, replay=None):
     """a failed parse reports the farthest failure position and the exact expected set"""
     run = Run("C12", tier, seed)
+    run.decoys = True          # one parse in six gets every option twice (an overridden value first)
     if tier == "quick":
         base = F.exhaustive(1, F.LEAVES_FULL)
         nrand, maxlen = 500, 3
@@ -642,6 +648,7 @@ def check_C14(tier, seed, replay=None):
     """throw and recover follow the labelled-failure semantics"""
     from peg import Gram
     run = Run("C14", tier, seed)
+    run.decoys = True          # one parse in six gets every option twice (an overridden value first)
     n, maxlen, depth = (600, 3, 4) if tier == "quick" else (5000, 4, 5)
     groups = []
     # the probes of DESIGN.md (innermost first, fall-through, unlisted labels skipped, continuation, handler scope)
@@ -773,6 +780,7 @@ def check_C16(tier, seed, replay=None):
     import findings
     from peg import Gram
     run = Run("C16", tier, seed)
+    run.decoys = True          # one parse in six gets every option twice (an overridden value first)
     groups = []
     lits = [("lit", (F.A,), False), ("lit", (), False), ("cls", (F.A, F.B), (), False, False)]
     div_trees = []
@@ -843,6 +851,7 @@ def check_C16(tier, seed, replay=None):
 def check_C17(tier, seed, replay=None):
     """invalid UTF-8 is reported by default and matched bytewise when allowed"""
     run = Run("C17", tier, seed)
+    run.decoys = True          # one parse in six gets every option twice (an overridden value first)
     FF = F.FFFD
     leaves = [("any",), ("cls", (FF,), (), False, False), ("cls", (F.A,), (), True, False), ("lit", (FF,), False), ("lit", (F.A,), False),
               ("lit", (F.A, F.EACUTE), False), ("cls", (F.EACUTE,), (), False, False)]
